@@ -736,7 +736,7 @@ def trace_cfg(work, prof, dev_on=None, check_edges=True):
 
 def universe(tier, rng, cat):
     specs = []
-    nlib, ndbg, nsteps = (96, 36, 22) if tier == "quick" else (1800, 600, 40)
+    nlib, ndbg, nsteps = (96, 36, 22) if tier == "quick" else (700, 240, 40)
     combos = [(p, b) for p in PROFILES for b in BLOCKSIZES]
     for i in range(nlib):
         p, b = combos[i % len(combos)]
